@@ -57,13 +57,13 @@ def basic_shard_text(ctx, cases):
     """basic syntax (to_string(), decimals=-1): the printer model, the parser model and the SPECIFICATION [pconn] used by the
     theorem C03_basic_round_trip, all against what the implementation printed and parsed"""
     items = []
-    for i, tlit, text, obs in cases:
-        items.append("(%d%%Z, %s, %s, %s)" % (i, tlit, lib.codepoints(text), cdc.outcome_lit(ctx, obs)))
-    return ("Definition cases : list (Z * conn * str * outcome conn) := [\n" + ";\n".join(items) + "].\n"
+    for i, tlit, text, obs, exact in cases:
+        items.append("(%d%%Z, %s, %s, %s, %s)" % (i, tlit, lib.codepoints(text), cdc.outcome_lit(ctx, obs), "true" if exact else "false"))
+    return ("Definition cases : list (Z * conn * str * outcome conn * bool) := [\n" + ";\n".join(items) + "].\n"
             "Definition F := 280%nat.\n"
             "Definition is_err (o : outcome conn) : bool := match o with Err _ => true | _ => false end.\n"
-            "Definition result : list Z := flat_map (fun c : Z * conn * str * outcome conn => let '(i, t, text, o) := c in\n"
-            "  if str_eqb (to_string builtin_registry None t F) text\n"
+            "Definition result : list Z := flat_map (fun c : Z * conn * str * outcome conn * bool => let '(i, t, text, o, exact) := c in\n"
+            "  if (if exact then str_eqb (to_string builtin_registry None t F) text else true)\n"
             "     && outcome_close F (parse builtin_registry text) o\n"
             "     && (match pconn builtin_registry F t with Some n => outcome_close F (Ok (top n)) o | None => is_err o end)\n"
             "  then [] else [i]) cases.\n")
@@ -110,7 +110,7 @@ def run(rep, tier, seed, tr_errors):
         "tools/cdc.py: circuit generator and the spelling printer (the oracle for alternative spellings)",
     ]
     thm_ok, names, out = lib.check_props_file(rep, PROPS_FILE, expect=["C03_container_scope", "C03_one_node_per_step", "C03_basic_text_lexes_exactly", "C03_builtin_registry_symbols_valid",
-                                                                    "C03_basic_round_trip", "C03_basic_round_trip_parse", "C03_basic_round_trip_applies"])
+                                                                    "C03_basic_round_trip", "C03_basic_round_trip_parse", "C03_basic_whitespace_insensitive", "C03_basic_round_trip_applies"])
     thm_ok2, _, _ = lib.check_props_file(rep, "Props/C03_Sem.v", expect=["C03_basic_round_trip_same_impedance", "C03_parse_results_well_formed"])
     thm_ok = thm_ok and thm_ok2
     n_rt = 250 if tier == "quick" else 5000
@@ -158,9 +158,16 @@ def run(rep, tier, seed, tr_errors):
     for _ in range(150 if tier == "quick" else 3000):
         c = cdc.rand_circuit(ctx, rng, depth=rng.randint(0, 4), digits=3)
         text = c.to_string()
-        bcases.append((i, circuit_lit.circuit_lit(c, ctx.rows, ctx.idx), text, cdc.parse_observe(text)))
+        bcases.append((i, circuit_lit.circuit_lit(c, ctx.rows, ctx.idx), text, cdc.parse_observe(text), True))
         rep.evaluations += 1
         i += 1
+        if rng.random() < 0.4:
+            # the same text with white space before brackets and symbols and at both ends (C03_basic_whitespace_insensitive)
+            sp = "".join((rng.choice(["", " ", "  ", "\t", "\n"]) if (ch in "[]()" or ch.isupper()) else "") + ch for ch in text)
+            sp = rng.choice(["", " ", "\n"]) + sp + rng.choice(["", " ", " \t"])
+            bcases.append((i, circuit_lit.circuit_lit(c, ctx.rows, ctx.idx), sp, cdc.parse_observe(sp), False))
+            rep.evaluations += 1
+            i += 1
     rep.samples = [{"kind": k, "decimals": d, "text": t[:200], "parsed": (o[1].to_string() if o[0] == "ok" else o[1])}
                    for _, k, d, _, t, o, _ in (cases[3:5] + cases[n_rt + 3:n_rt + 5])]
     rep.extra["input_distribution"] = {"round_trip_cases": n_rt, "spelling_cases": n_sp,
